@@ -168,7 +168,7 @@ func (c *FnCtx) bindClause(cl *clause, env *evalEnv, prefix string) *boundClause
 			if fl.iter != nil {
 				// iteration-local event: the pattern is evaluated when a matching call executes
 				fl.args = append(fl.args, a)
-				fl.argT = append(fl.argT, "lazy:"+exprTextFull(a))
+				fl.argT = append(fl.argT, fmt.Sprintf("lazy:%p:%s", a, exprTextFull(a))) // never shared between clauses
 				fl.argV = append(fl.argV, nil)
 				continue
 			}
@@ -528,8 +528,10 @@ func (c *FnCtx) autoCandidates(li *loopInfo, st *State, cond Term, mode string) 
 				c.assume(implies(cd.en, implies(cond, c2.t)))
 			case mode == "entry":
 				cd.entry = implies(cond, c2.t)
+				cd.sites = append(cd.sites, c.curBlock)
 			default:
 				cd.back = append(cd.back, implies(cond, c2.t))
+				cd.sites = append(cd.sites, c.curBlock)
 			}
 		}
 	}
